@@ -607,3 +607,63 @@ Proof.
     rewrite <- (case_key_inj c' c (S' c' Hc') (S c Hc) E'). exact Hc'. }
   intros cs cs' S S' E c. split; [apply half|apply half]; auto.
 Qed.
+
+(* ---------- fifth wave: the helper `only` on lists that repeat a value; entries that differ only in
+   omitted / explicit false of an optional flag ---------- *)
+
+(* `only` is "non-empty and every element is x", however often x is repeated (not "has length one") *)
+Theorem only_exact_proof : forall l x, only l x = true <-> l <> [] /\ forall v, In v l -> v = x.
+Proof. exact only_spec. Qed.
+
+Lemma only_repeat n x : only (repeat x (S n)) x = true.
+Proof.
+  apply only_spec. split; [discriminate|]. intros v Hv. apply repeat_spec in Hv. exact Hv.
+Qed.
+
+(* an include / exclude entry that omits the version and asks for full-duplex (or undeclared half-duplex)
+   is rejected whenever every declared version is HTTP/1.1 - whatever the length of the versions list *)
+Theorem duplex_entry_over_http1_rejected_proof : forall cfg e,
+  In e (cfg_includes cfg ++ cfg_excludes cfg) ->
+  e_version e = 0 ->
+  all_http1 (r_versions (defaulted (cfg_features cfg))) ->
+  e_stream e = FULL \/ (e_stream e = HALF /\ r_half1 (defaulted (cfg_features cfg)) = false) ->
+  parse_config cfg = Err.
+Proof.
+  intros cfg e Hin Hv Hall Hs. apply parse_err_iff_proof. left. right. exists e. split; [exact Hin|].
+  unfold entry_contradictory, entry_versions. rewrite Hv. simpl.
+  destruct Hs as [Hs|[Hs Hh]].
+  - right; right; right; right; left. split; assumption.
+  - right; right; right; left. split; [assumption|split; assumption].
+Qed.
+
+(* an exclude entry with an explicit use_tls: false removes no TLS case (an omitted flag matches both,
+   an explicit false only the plaintext cases): each entry is resolved from its own fields *)
+Theorem exclude_explicit_false_keeps_tls_proof : forall cfg cs c,
+  parse_config cfg = Ok cs ->
+  (forall e, In e (cfg_excludes cfg) -> e_tls e = Some false) ->
+  c_tls c = true ->
+  (In c cs <-> in_features (defaulted (cfg_features cfg)) c \/
+               exists e, In e (cfg_includes cfg) /\ matches (defaulted (cfg_features cfg)) e c).
+Proof.
+  intros cfg cs c H Hex Ht. rewrite (parse_ok_iff_proof cfg cs H c). split; [intros [HH _]; exact HH|].
+  intros HH. split; [exact HH|]. intros (e & Hin & Hm).
+  destruct Hm as (_ & _ & _ & _ & _ & Hf & _). rewrite (Hex e Hin) in Hf. simpl in Hf. congruence.
+Qed.
+
+(* the same for the other two optional flags of an entry *)
+Theorem exclude_explicit_false_keeps_flagged_proof : forall cfg cs c,
+  parse_config cfg = Ok cs ->
+  (forall e, In e (cfg_excludes cfg) ->
+     (e_tls e = Some false /\ c_tls c = true) \/ (C06_Model.e_certs e = Some false /\ c_certs c = true) \/
+     (e_limit e = Some false /\ c_limit c = true)) ->
+  (In c cs <-> in_features (defaulted (cfg_features cfg)) c \/
+               exists e, In e (cfg_includes cfg) /\ matches (defaulted (cfg_features cfg)) e c).
+Proof.
+  intros cfg cs c H Hex. rewrite (parse_ok_iff_proof cfg cs H c). split; [intros [HH _]; exact HH|].
+  intros HH. split; [exact HH|]. intros (e & Hin & Hm).
+  destruct Hm as (_ & _ & _ & _ & _ & Hf & Hc & Hl & _).
+  destruct (Hex e Hin) as [[E T]|[[E T]|[E T]]].
+  - rewrite E in Hf. simpl in Hf. congruence.
+  - rewrite E in Hc. simpl in Hc. congruence.
+  - rewrite E in Hl. simpl in Hl. congruence.
+Qed.
